@@ -16,12 +16,15 @@ PROP = dict(
          "without the 'Version ' prefix, negative / huge version numbers, repeated ids; (B) StaticMetadata::new "
          "(public API) on generated name maps whose strings collide with axis labels and instance names, 0-3 axes "
          "(point axes included), 0-5 instances (default location or not, PostScript names or not), source ids above "
-         "255; the input HashMap's iteration order is observed and given to the model; (C) whole fonts compiled "
+         "255 with distinct strings, and 2-4 source records above 255 sharing one string (the largest id among them; the "
+         "string also used as axis label / instance name); every source goes through 3 calls on fresh HashMaps, 16 when "
+         "it supplies ids above 255, different results are a violation with the source as replay, and each distinct "
+         "result is compared with the model under the iteration order that call saw; (C) whole fonts compiled "
          "in-process from generated designspace+UFO sources (fontinfo naming fields, styleMap names, "
          "openTypeNameRecords, axis label names, instances whose names equal family / style / label strings, FEA "
          "featureNames / cvParameters / size / STAT / name table with Windows, Mac and other-language names) decoded "
-         "with read-fonts; 11 fixed scenarios first (one per failure class found so far, repaired or known; the former "
-         "hash-order ones are built 10 times), sources with coinciding strings are built 3 times, every fourth other source twice. Non-trivial = "
+         "with read-fonts; 12 fixed scenarios first (one per failure class found so far, repaired or known; the former "
+         "hash-order ones are built 10 times), sources whose records above 255 share a string are built 8 times (the fixed scenario 16 times), other sources with ids above 255 4 times, sources with coinciding strings 3 times, every fourth other source twice. Non-trivial = "
          "non-empty add list / has a variable axis / a compiled font; distinct = distinct input.",
     trusted_base=["Coq 8.16.1 kernel (coqc, vm_compute for case evaluation and the refutation witnesses)",
                   "hand-written model FV.C18.Model tied to fontir::ir::NameBuilder, StaticMetadata::new, fontbe "
